@@ -3,7 +3,7 @@ sys.path.insert(0, os.path.dirname(os.path.abspath(__file__)))
 import seqfam, vlib
 
 ASSUME = ["values of one scalar type per grouping column (a number never meets a string in one column)",
-          "scalar-function keys are exercised with upper()/lower() over present string inputs",
+          "scalar-function keys are exercised with upper() / lower() / concat(k, 0.5) over present string inputs",
           "batches: one event-time tumbling window closed by a flush row, or CountingWindow(N) per key tuple; lock-step replay"]
 MISSING = "__missing__"
 STRS = ["a", "b", "", "|", ",", "\x1f", "\x00NULL", "a\x1fb", "b|", "NULL", "\x1f\x1f"]
@@ -26,8 +26,12 @@ def mk(cols, tuples, carrier, n, fnkey, rng, aliases=()):
     for j, c in enumerate(cols):
         if fnkey is not None and j == fnkey[0]:
             f = fnkey[1]
-            gexprs.append("%s(%s)" % (f, c)); gout.append("f%d" % j)
-            gmap.append([[s, s.upper() if f == "upper" else s.lower()] for s in ["a", "b", "Ab", "aB", "AB", "ab", "B", "A"]])
+            if f == "concatdot":      # a function key whose text holds a dot (a decimal literal; quotes are not admitted in GROUP BY keys): the key is a computed column, the dot is no path
+                gexprs.append("concat(%s, 0.5)" % c); gout.append("f%d" % j)
+                gmap.append([[s, s + "0.5"] for s in ["a", "b", "Ab", "aB", "AB", "ab", "B", "A"]])
+            else:
+                gexprs.append("%s(%s)" % (f, c)); gout.append("f%d" % j)
+                gmap.append([[s, s.upper() if f == "upper" else s.lower()] for s in ["a", "b", "Ab", "aB", "AB", "ab", "B", "A"]])
         elif j in aliases:        # a bare grouping column reported under an AS alias
             gexprs.append(c); gout.append("r%d" % j); gmap.append([])
         else:
@@ -102,7 +106,10 @@ def run(tier):
             for j in range(ncol):
                 t.append(rng.choice(["a", "Ab", "aB", "AB", "b", "B"]) if j == fpos else rng.choice(["x", "y", None, MISSING, "x|"]))
             tuples.append(tuple(t))
-        scen.append(mk(cols, tuples, "tumbling", 0, (fpos, rng.choice(["upper", "lower"]), rng.random() < 0.5), rng))
+        carrier = rng.choice(["tumbling", "tumbling", "global"])
+        if carrier == "global":
+            tuples = tuples + [rng.choice(tuples) for _ in range(rng.choice([3, 5]))]
+        scen.append(mk(cols, tuples, carrier, 0, (fpos, rng.choice(["upper", "lower", "concatdot"]), rng.random() < 0.5), rng))
     # a batch dropped because user code panicked while its results were built leaves no group behind: the next batch has exactly its own
     # key tuples, each aggregated over its own rows (C03's poisoned batches, the grouped ones whose user aggregate panics)
     import C03
@@ -136,7 +143,7 @@ def run(tier):
     res.cov["distinct_nontrivial"] = len({json.dumps(s["rows"], sort_keys=True) + s["sql"] for s in scen})
     res.cov["rule"] = ("all batches of <= 3 rows over three 5-value alphabets for one grouping column (exhaustive) plus seeded batches over 0-3 grouping columns (some reported under AS aliases, some named alike up to letter case) "
                        "(strings with separator-like characters, the aggregator's NULL marker text, NULL, missing, numbers incl. > 2^53) through a tumbling window (several groups per batch) "
-                       "and CountingWindow(2); scalar-function keys upper()/lower() in every position of the GROUP BY list; distinct = distinct (SQL, rows)")
+                       "and CountingWindow(2); scalar-function keys upper() / lower() / concat(k, 0.5) in every position of the GROUP BY list (tumbling and global windows); distinct = distinct (SQL, rows)")
     res.assumptions = ASSUME
     for enc, mr, ml in ([("lenprefix", 2, 2)] if quick else [("lenprefix", 2, 2), ("lenprefix", 3, 1)]):
         cfg = 'SPECIFICATION Spec\nCONSTANTS Encoder = "%s" MaxRows = %d NCols = 2 MaxLen = %d\nINVARIANTS Partition\nCHECK_DEADLOCK FALSE\n' % (enc, mr, ml)
